@@ -268,4 +268,15 @@ def rule_sep(ctx):
                 ctx.ob("C08.SEP", n, f"{w.name}: each listing line is the built string + END_OF_LINE, encoded", ok, f"{w.name}: listing line is `{src(v)}`", construct=f"{w.name}:line form")
 
 
-RULES = [rule_quote, rule_carry, rule_send, rule_sep]
+def rule_shared_names(ctx):
+    from .c19 import rule_nodrop
+    from .c06 import rule_cmd, rule_enc
+    ctx.rule("C08.LINK", "the ' -> ' separator of a LIST line is searched only where the line is a link, with a raising search (a file named 'a -> b' keeps its name; shared with C19.NODROP)")
+    ctx.borrow(rule_nodrop, {"C19.NODROP": "C08.LINK"})
+    ctx.rule("C08.CMD", "the server takes the command argument verbatim after the first blank (leading blanks of a name survive; shared with C06.CMD)")
+    ctx.borrow(rule_cmd, {"C06.CMD": "C08.CMD"})
+    ctx.rule("C08.REPLY", "reply texts (257 path, MLST facts line) are framed without being split or re-joined (shared with C06.ENC)")
+    ctx.borrow(rule_enc, {"C06.ENC": "C08.REPLY"})
+
+
+RULES = [rule_quote, rule_carry, rule_send, rule_sep, rule_shared_names]
